@@ -11,18 +11,19 @@ import (
 )
 
 type Env struct {
-	vc    *VC
-	st    *State
-	old   *State
-	pre   *State // loop entry state (pre(e))
-	vars  map[string]*Val
-	fr    *Frame
-	depth int
-	err   error
-	idx   *Val // $idx
-	vis   map[string]*Val
-	pats  *patCollector
-	idxBy map[int]*Val
+	vc           *VC
+	st           *State
+	old          *State
+	pre          *State // loop entry state (pre(e))
+	vars         map[string]*Val
+	fr           *Frame
+	depth        int
+	err          error
+	idx          *Val // $idx
+	vis          map[string]*Val
+	pats         *patCollector
+	idxBy        map[int]*Val
+	definingPure bool
 }
 
 func (e *Env) with(st *State) *Env {
@@ -809,6 +810,11 @@ func (e *Env) call(n *SCall) *Val {
 		if len(sf.Params) != len(n.Args) {
 			return e.fail("%s expects %d arguments", n.Fun, len(sf.Params))
 		}
+		if sf.Pure && !e.definingPure {
+			if v := e.pureSpecApp(sf, n); v != nil {
+				return v
+			}
+		}
 		if e.depth > 40 {
 			return e.fail("spec function recursion too deep in %s", n.Fun)
 		}
@@ -1020,4 +1026,56 @@ func walkSpec(x SExpr, f func(SExpr)) {
 	case *SQuant:
 		walkSpec(n.Body, f)
 	}
+}
+
+// pureSpecApp applies a `spec pure` function as an SMT function symbol; the
+// definitional axiom (forall params :: f(params) == body) is emitted once.
+func (e *Env) pureSpecApp(sf *SpecFunc, n *SCall) *Val {
+	vc := e.vc
+	u := vc.u
+	fname := "sp_" + sf.Name
+	var ptypes []types.Type
+	var sorts []string
+	for _, p := range sf.Params {
+		t, err := e.resolveType(p.Type)
+		if err != nil {
+			return nil
+		}
+		ptypes = append(ptypes, t)
+		sorts = append(sorts, u.sortOf(t))
+	}
+	if _, done := u.uninterpN[fname]; !done {
+		// evaluate the body once over bound parameter names to learn the result sort
+		de := &Env{vc: vc, st: e.st, old: e.old, vars: map[string]*Val{}, depth: e.depth + 50, definingPure: true}
+		var decl []string
+		for i, p := range sf.Params {
+			nm := fmt.Sprintf("q_%s_%d", p.Name, 900+i)
+			de.vars[p.Name] = &Val{T: ptypes[i], S: nm}
+			decl = append(decl, "("+nm+" "+sorts[i]+")")
+		}
+		body := de.eval(sf.Body)
+		if de.err != nil || body.S == "" {
+			return nil
+		}
+		// the body must not depend on the state
+		for _, bad := range []string{"H0_", "H_", "MD0_", "MD_", "MV0_", "MV_", "MC_", "alloc", "RH"} {
+			if strings.Contains(body.S, bad) {
+				return nil
+			}
+		}
+		sf.ResT = body.T
+		rs := vc.sortOfVal(body)
+		var names []string
+		for i := range sf.Params {
+			names = append(names, fmt.Sprintf("q_%s_%d", sf.Params[i].Name, 900+i))
+		}
+		u.declareUninterp(fname, sorts, rs)
+		app := "(" + fname + " " + strings.Join(names, " ") + ")"
+		u.uninterp = append(u.uninterp, fmt.Sprintf("(assert (forall (%s) (! (= %s %s) :pattern (%s))))", strings.Join(decl, " "), app, body.S, app))
+	}
+	var as []string
+	for _, a := range n.Args {
+		as = append(as, e.eval(a).S)
+	}
+	return &Val{T: sf.ResT, S: "(" + fname + " " + strings.Join(as, " ") + ")"}
 }
